@@ -80,7 +80,9 @@ fn main() {
             match r.constraint() {
                 Constraint::LinesAtAngle(_, _, AngleKind::Other(a)) => {
                     angle_reqs += 1;
-                    let deg = a.to_degrees();
+                    // the requested angle in degrees, computed here from the raw value and unit (not by
+                    // the implementation's own conversion)
+                    let deg = { let (is_deg, v) = ezpz_verif_harness::codec::angle_parts(a); if is_deg { v } else { v * 180.0 / PI } };
                     let near = |t: f64| (deg - t).abs() < 1e-9 * (1.0 + t.abs());
                     let is_par = near(0.0) || near(180.0) || near(360.0);
                     let is_perp = near(90.0) || near(-90.0);
@@ -144,6 +146,25 @@ fn main() {
                     }
                     if flagged && !warned {
                         bad(format!("request {idx} ({}) was degenerate at a visited configuration but no warning names it", r.constraint().constraint_kind()), "degenerate-warning-missing");
+                    }
+                }
+            }
+        }
+        // --- independent of the implementation's flags: a request of the returned level whose geometry
+        // is exactly collapsed in the initial guess must be named by a Degenerate warning (Ok or Err)
+        if let Some(level) = returned_level {
+            if sys.max_iterations >= 1 {
+                let x0: Vec<f64> = sys.guesses.iter().map(|g| g.1).collect();
+                let dense = sys.guesses.iter().enumerate().all(|(k, g)| g.0 as usize == k);
+                let all_in_range = sys.reqs.iter().filter(|r| r.priority() <= level).all(|r| vh::nonzeroes(r.constraint()).iter().flatten().all(|id| (*id as usize) < x0.len()));
+                if dense && all_in_range && x0.iter().all(|v| v.is_finite()) {
+                    for (idx, r) in sys.reqs.iter().enumerate() {
+                        if r.priority() <= level && ezpz_verif_harness::geom::collapsed(r.constraint(), &x0) {
+                            let warned = warnings.iter().any(|w| w.about_constraint == Some(idx) && matches!(w.content, WarningContent::Degenerate));
+                            if !warned {
+                                bad(format!("request {idx} ({}) is exactly collapsed in the initial guess (zero-length line / coincident defining points / zero arc radius) but no Degenerate warning names it", r.constraint().constraint_kind()), "collapse-at-guess-not-reported");
+                            }
+                        }
                     }
                 }
             }
